@@ -132,7 +132,13 @@ inline double draw_lin(const std::string& c, Rng& r) {
 
 // a tangent with rotation magnitude drawn from thc and linear coordinates from linc.
 // dir: generic | axis | par | perp  (relation between the rotation axis and the linear blocks)
+template <class G> struct Draw;
 template <class G> typename G::Tangent draw_tangent(const std::string& thc, const std::string& linc,
+                                                    const std::string& dir, Rng& r) { return Draw<G>::tangent(thc, linc, dir, r); }
+template <class G> G draw_element(const std::string& thc, const std::string& linc, const std::string& hemi,
+                                  const std::string& dir, Rng& r) { return Draw<G>::element(thc, linc, hemi, dir, r); }
+template <class G> struct Draw {
+static typename G::Tangent tangent(const std::string& thc, const std::string& linc,
                                                     const std::string& dir, Rng& r) {
   using S = typename G::Scalar; using T = typename G::Tangent; using I = Info<G>;
   T t; Eigen::Matrix<double, T::DoF, 1> c;
@@ -160,7 +166,7 @@ template <class G> typename G::Tangent draw_tangent(const std::string& thc, cons
 // a group element built directly from coefficients (not through manif's exp): rotation by an angle
 // from thc about a random/aligned axis, hemisphere hemi ("pos" | "neg" | "any"), linear coefficients
 // from linc.  The rotation coefficients are normalised in the scalar type.
-template <class G> G draw_element(const std::string& thc, const std::string& linc, const std::string& hemi,
+static G element(const std::string& thc, const std::string& linc, const std::string& hemi,
                                   const std::string& dir, Rng& r) {
   using S = typename G::Scalar; using I = Info<G>;
   Eigen::Matrix<S, G::RepSize, 1> c;
@@ -183,6 +189,7 @@ template <class G> G draw_element(const std::string& thc, const std::string& lin
   }
   return G(c);
 }
+};   // struct Draw
 
 template <class V> V draw_point(const std::string& linc, Rng& r) {
   V p; for (int i = 0; i < p.size(); ++i) p(i) = (typename V::Scalar)draw_lin(linc, r); return p;
